@@ -6,6 +6,9 @@ From SV Require Import Base.Bytes Generated.SourceParams.
 Import ListNotations.
 From SV Require Import Model.Log.
 
+Lemma log_prio_translated : src_problems_log_prio = 0%nat.
+Proof. reflexivity. Qed.
+
 (* ---- src/log/logger.rs ---- *)
 Fixpoint prio_lookup (name : bytes) (tbl : list (list N * N)) (dflt : N) : N :=
   match tbl with [] => dflt | (k, p) :: t => if beq name k then p else prio_lookup name t dflt end.
